@@ -68,9 +68,9 @@ pub fn data_rt_body(p: usize, with_nsnr: bool, with_len: bool, off: Option<usize
     }
     e.extend_from_slice(payload);
 
-    require!(w.data.len() == PREFIX + total, "C06,C09: a data message encodes to flag word, optional fields and payload, appended after what the writer held");
+    require!(w.data.len() == PREFIX + total, "C04,C06,C09: a data message encodes to flag word, optional fields and payload, appended after what the writer held");
     check!(w.data[0] == prefix[0] && w.data[1] == prefix[1] && w.data[2] == prefix[2], "C09: octets already in the writer are untouched");
-    check!(bytes_eq(&w.data[PREFIX..], &e), "C06,C09: data message octets equal the specification encoder's (flag word, big-endian fields in RFC 2661 order, payload), independent of position");
+    check!(bytes_eq(&w.data[PREFIX..], &e), "C04,C06,C09: data message octets equal the specification encoder's (flag word, big-endian fields in RFC 2661 order, payload; a Length field is written as given), independent of position");
 
     // decode what was encoded, followed by two unrelated octets when a length field delimits the message
     let mut buf = [0u8; 32];
